@@ -20,6 +20,8 @@ RULE = ('bounded-exhaustive strings over the ten LaTeX-active ASCII characters p
         'replace/ignore/unihex; under fail a ValueError is raised iff some NFC character has no '
         'rule in the selected table and is outside 32..127 / \\n\\r\\t (computed from the tables). '
         'Inputs with unknown characters are also encoded with unknown_char_warning at its default. '
+        'A quarter of the default-rule-set inputs also go through the module-level shorthand after '
+        'a call with other options. '
         'Non-trivial = string with >= 2 active characters or an active character next to a '
         'replacement ending in a control word; distinct by (string, configuration).')
 ASSUMPTIONS = ['the strict parse uses the default walker context',
